@@ -498,6 +498,65 @@ Case gen_case(const std::string &profile, uint64_t seed, const GenOpts &go) {
         }
         return c;
     }
+    if (profile == "alloc") {
+        // enumerating profile: configuration = seed / S, item = seed % S
+        GenOpts g2 = go; g2.tier = 0;
+        base_config(rc, c, g2, true);
+        int n = c.M.n;
+        if (n > 30 || n < 2) {
+            n = (int)rc.range(2, 30); int fam = (int)rc.below(F_COUNT); Pattern P = gen_pattern(rc, n, fam);
+            c.M = pattern_to_mat(P); c.family = family_names[fam]; c.transversal = P.transversal;
+            c.values.clear(); c.values.push_back(gen_values(rc, c.M, V_DOMINANT, c.prec, P.transversal)); c.M.val = c.values[0]; c.valclass = "dominant"; c.tags["valclass"] = V_DOMINANT;
+            c.ldb = n; if (c.nrhs == 0) c.nrhs = 1; c.rhs.clear(); std::vector<cld> b((size_t)c.ldb * c.nrhs, cld(1, 0)); c.rhs.push_back(b);
+            if (c.colperm == 4) c.colperm = 1; c.user_perm_c.clear();
+        }
+        if (c.nrhs == 0) { c.nrhs = 1; c.rhs[0].assign((size_t)c.ldb, cld(1, 0)); }
+        OpSpec op;
+        gen_tunables(rc, op.ienv, n);
+        if (op.ienv[3] < op.ienv[2]) op.ienv[3] = op.ienv[2];
+        op.dyn_snode = false;
+        op.x.nprocs = (int)rc.range(1, 4);
+        op.x.panel_size = (int)op.ienv[1]; op.x.relax = (int)op.ienv[2];
+        bool expert = rc.chance(0.6);
+        op.kind = expert ? OP_GSSVX : OP_GSSV;
+        op.x.u = 1.0; op.x.fact = expert ? (rc.chance(0.5) ? 1 : 0) : 0; op.x.trans = expert ? (int)rc.below(2) : 0;
+        long item = (long)(seed % (uint64_t)go.S);
+        c.tags["alloc_item"] = item;
+        gen_sched(rs, op.sched, op.x.nprocs, item == 0, profile);
+        long K = std::max(1L, go.alloc_K);
+        long nfault = std::min<long>(go.S - 3 - 24, 2 * K + 16);
+        if (item == 0) c.tags["alloc_mode"] = 0;                       // fault-free baseline
+        else if (item == 1) { c.tags["alloc_mode"] = 1; if (expert) op.x.lwork = -1; }   // workspace query
+        else if (item == 2) { c.tags["alloc_mode"] = 2; if (expert) { op.x.lwork = go.lwork_sufficient > 0 ? go.lwork_sufficient : (8L << 20); op.x.work_align = rc.chance(0.5) ? 4 : 0; } }
+        else if (item - 3 < nfault) {
+            long j = item - 3; int mode = (int)(j % 2); long k = j / 2 + 1;
+            if (k > K) k = 1 + (long)rs.below((uint64_t)K);
+            if (mode == 0) op.faults.alloc_fail_from = k; else op.faults.alloc_fail_only = k;
+            c.tags["alloc_mode"] = 3 + mode; c.tags["alloc_k"] = k;
+        } else {
+            // caller workspace sizes: boundaries of the sufficient run +- one word, and seeded sizes
+            c.tags["alloc_mode"] = 5;
+            long j = item - 3 - nfault;
+            long lw = 0;
+            long slots = go.S - 3 - nfault, nb = std::max<long>(1, (slots - 6) / 3);
+            if (!go.bounds.empty() && j < 3 * nb) {
+                // boundaries spread over the whole list, always including the peak
+                long bi = std::min<long>((long)go.bounds.size() - 1, (j / 3 + 1) * (long)go.bounds.size() / nb - 1);
+                if (bi < 0) bi = 0;
+                lw = go.bounds[bi] + (j % 3 - 1) * 8 + (j % 3 == 2 ? 8 : 0);
+            }
+            else { long suff = go.lwork_sufficient > 0 ? go.lwork_sufficient : (1L << 20); lw = 1 + (long)rs.below((uint64_t)suff); }
+            // the TAIL end of the workspace is not aligned by the library: a length that is not a multiple of the word size
+            // would misalign its own integer arrays, which no documented precondition allows
+            lw &= ~7L;
+            if (lw < 8) lw = 8;
+            op.kind = OP_GSSVX; op.x.fact = expert ? op.x.fact : 0;
+            op.x.lwork = lw; op.x.work_align = rs.chance(0.5) ? 4 : 0;
+            c.tags["alloc_lwork"] = lw;
+        }
+        c.ops.push_back(op);
+        return c;
+    }
     // unknown profile: empty case
     return c;
 }
